@@ -38,7 +38,39 @@ BAD_SOURCES = {
     "cyc_assoc.f90": "program p\ninteger :: a\nassociate (x => y, y => x)\nend associate\nend program p\n",
     "cyc_ptr.f90": "module mp\ninteger, pointer :: pp => pp\ncontains\nsubroutine s()\npp = 1\nend subroutine s\nend module mp\n",
     "noise.f90": "procedure(foo) :: bar\n end\n contains\n#if\n",
+    # a type that leaves a deferred binding unimplemented: the only source of code actions
+    "deferred.f90": ("module geo\n implicit none\n type, abstract :: base_t\n contains\n  procedure(len_if), deferred :: length\n"
+                     "  procedure(len_if), deferred :: width\n end type base_t\n abstract interface\n  function len_if(self) result(r)\n"
+                     "   import base_t\n   class(base_t), intent(in) :: self\n   real :: r\n  end function len_if\n end interface\n"
+                     " type, extends(base_t) :: seg_t\n  real :: a\n end type seg_t\nend module geo\n"),
 }
+POSITIONAL = ["textDocument/codeAction", "textDocument/hover", "textDocument/definition", "textDocument/references",
+              "textDocument/implementation", "textDocument/signatureHelp", "textDocument/completion", "textDocument/rename",
+              "textDocument/documentHighlight"]
+
+
+def gen_sweep(rng, files):
+    """open one file, then one positional method on every line (the answers of most handlers
+    depend on where in which construct the cursor is)."""
+    f = rng.choice(files)
+    u = impl.uri(f[0])
+    method = rng.choice(POSITIONAL)
+    msgs = [{"jsonrpc": "2.0", "id": 0, "method": "initialize", "params": {"rootPath": os.path.dirname(files[0][0])}},
+            {"jsonrpc": "2.0", "method": "textDocument/didOpen", "params": {"textDocument": {"uri": u}}}]
+    for line in range(f[1]):
+        ch = rng.choice([0, 2, 5, 9, 14])
+        pos = {"line": line, "character": ch}
+        p = {"textDocument": {"uri": u}, "position": pos}
+        if method == "textDocument/codeAction":
+            p = {"textDocument": {"uri": u}, "range": {"start": {"line": line, "character": 0}, "end": {"line": line, "character": 200}},
+                 "context": {"diagnostics": []}}
+        elif method == "textDocument/rename":
+            p["newName"] = "zz"
+        elif method == "textDocument/references":
+            p["context"] = {"includeDeclaration": True}
+        msgs.append({"jsonrpc": "2.0", "id": line + 1, "method": method, "params": p})
+    return msgs
+
 
 
 class RunConn(impl.Conn):
@@ -101,6 +133,8 @@ def gen_params(rng, method, files, malformed):
 
 
 def gen_sequence(rng, files):
+    if rng.random() < 0.2:
+        return gen_sweep(rng, files)
     n = rng.choice([3, 6, 10, 16, 25, 40])
     msgs = [{"jsonrpc": "2.0", "id": 0, "method": "initialize", "params": {"rootPath": os.path.dirname(files[0][0])}}]
     exit_at = rng.randrange(2, n + 8) if rng.random() < 0.5 else None
@@ -306,8 +340,15 @@ def setup_root():
 def search_failing(ctx):
     root, files = setup_root()
     try:
-        for k in range(40):
-            msgs = gen_sequence(ctx.rng, files)
+        fixed = []
+        for f in files:
+            for meth in POSITIONAL:
+                class _R:
+                    def choice(self, xs, _f=f, _m=meth):
+                        return _f if xs is files else (_m if xs is POSITIONAL else xs[0])
+                fixed.append(gen_sweep(_R(), files))
+        for k in range(len(fixed) + 40):
+            msgs = fixed[k] if k < len(fixed) else gen_sequence(ctx.rng, files)
             conn, beh, running, died = run_trace(msgs, root)
             items, _ = to_model(msgs, conn, beh, proto_tr.translate().get("table", []))
             bad = monitor(msgs, conn, running, died, items)
@@ -343,8 +384,14 @@ def run(ctx):
         exprs = []
         recs = []
         dist = {"requests": 0, "notifications": 0, "unknown_method": 0, "handler_exn": 0, "handler_rpc": 0, "with_exit": 0}
+        fixed = []
+        for f in files:
+            class _R:  # deterministic chooser: this file, codeAction
+                def choice(self, xs, _f=f):
+                    return _f if xs is files else ("textDocument/codeAction" if xs is POSITIONAL else xs[0])
+            fixed.append(gen_sweep(_R(), files))
         for k in range(n):
-            msgs = gen_sequence(ctx.rng, files)
+            msgs = fixed[k] if k < len(fixed) else gen_sequence(ctx.rng, files)
             conn, beh, running, died = run_trace(msgs, root)
             items, used = to_model(msgs, conn, beh, t.get("table", []))
             ids = {}
